@@ -161,6 +161,10 @@ def reply_parts(method, beh, istag=b'"vf-c60-1"'):
         return (b"ICAP/1.0 %d Scripted\r\n" % int(act[1:]) + tag + b"Encapsulated: null-body=0\r\n\r\n", b"", b"")
     if act == "g":
         return (b"HELLO THIS IS NOT ICAP\r\n\r\n", b"", b"")
+    if act in ("200x", "206x"):       # a body without any encapsulated HTTP head
+        bname = b"res-body" if method == "RESPMOD" else b"req-body"
+        status = b"206 Partial Content" if act == "206x" else b"200 OK"
+        return (b"ICAP/1.0 " + status + b"\r\n" + tag + b"Encapsulated: " + bname + b"=0\r\n\r\n", b"", chunked(beh.get("body", b""), beh.get("chunk")))
     if act in ("200", "200n", "200r", "206"):
         head = beh["head"]
         is_resp = method == "RESPMOD" or act == "200r"
